@@ -329,3 +329,13 @@ Fixpoint table_uesc (tbl : list (str * option (nat * str))) (s : str) : option (
   | [] => Some (0, s_oracle_miss)
   | (k, v) :: tbl' => if str_eqb k s then v else table_uesc tbl' s
   end.
+
+(* ---- the default oracle: Model/XmlContent.v standing in for expat ------------------------------------
+   no position arithmetic is modelled for it: every error is reported at line 1, column 0 *)
+Definition s_not_wf : str :=
+  of_ascii [110; 111; 116; 32; 119; 101; 108; 108; 45; 102; 111; 114; 109; 101; 100].
+Definition xml_sax (d : str) : sax_out :=
+  match xml_doc d with
+  | XOk => mksax None []
+  | _ => mksax (Some (1%Z, 0%Z, s_not_wf)) []
+  end.
